@@ -118,7 +118,7 @@ pub fn run(ctx: &mut Ctx) {
         ctx.check("*:decimal-string:prefix", &json!({"*": [format!(" {} ", xs), 1]}), &null);
     }
     // radix literal families around the accumulator widths (all-zero, all-max, top bit, bottom bit, alternating)
-    for x in al::radix_families() {
+    for x in al::radix_families().into_iter().chain(al::integer_digit_strings()) {
         if !ctx.mine() {
             continue;
         }
@@ -334,6 +334,7 @@ pub fn run(ctx: &mut Ctx) {
     }
     crate::spaces::render_probes(ctx, &OPS);
     crate::spaces::width_probes(ctx);
+    crate::spaces::sweep::length_sweep(ctx);
     crate::spaces::type_grid_probes(ctx, &OPS);
     crate::spaces::depth_probes(ctx);
 }
